@@ -183,10 +183,10 @@ parse_node_t* binary_int_op (parse_node_t * l, parse_node_t * r, char op, char *
               l->v.number &= r->v.number;
               break;
             case F_LSH:
-              l->v.number <<= r->v.number;
+              l->v.number = LPC_INT_LSH (l->v.number, r->v.number);
               break;
             case F_RSH:
-              l->v.number >>= r->v.number;
+              l->v.number = LPC_INT_RSH (l->v.number, r->v.number);
               break;
             case F_MOD:
               if (r->v.number == 0)
